@@ -301,7 +301,7 @@ ModeConsistent ==          \* the facts the code's unwrap()/get_plain() rely on 
    /\ (w.wtef => w.wtf /\ w.files # <<>>)
    /\ (w.wcef => w.wtef)
    /\ (w.comp \in Compressing => w.wtf)
-   /\ (w.enc => w.wtf \/ w.comp = Closed)
+   /\ (w.enc => w.files # <<>> \/ w.comp = Closed)      \* (a directory or symlink created with a password keeps the cipher until the next call closes it)
    /\ (w.wraw /\ w.wtf => w.files # <<>>)
    /\ (w.wtf => w.files # <<>>)
 
